@@ -330,6 +330,9 @@ def run(chk):
                 chk.violation("exit-status|%s" % (code if abs(code) < 1000 else "big"),
                               "exit(%s) ended with status %s, stdout %r" % (code, rr["rc"], rr["out"][:40]),
                               {"src": open(path).read(), "rc": rr["rc"], "stderr": rr["err"].decode("utf-8", "replace")[-300:]})
+        pcap_early = os.path.join(work, "early.pcap")
+        with open(pcap_early, "wb") as f:
+            f.write(one_packet_pcap(2))
         # printing while stdout / stderr cannot be written (full device) must not abort the interpreter either
         for k, prog in enumerate(["puts(\"x\" * 20000); puts(1);", "print(\"{}\", \"y\" * 20000);", "println(\"{}\", \"z\" * 20000);",
                                   "let i = 0; while i < 3000 { puts(\"line \", i); i = i + 1; }", "puts(); puts([1, 2, 3], map {1: 2});",
@@ -345,6 +348,48 @@ def run(chk):
                 chk.observed(("full-stdout", k, rel))
                 if core.crashed(rr):
                     report_crash(chk, prog + "   [stdout = /dev/full]", rr, "full-stdout")
+        # the interpreter's own messages (diagnostics, runtime errors, the -c echo, the REPL banner) on streams that cannot be
+        # written must not abort it either
+        diag_progs = ["1 / 0;", "let = ;", "zz;", "eprintln(\"x\"); puts(1);", "puts(1); [1][5];", "fn f() { f() } f();", "break;", "\"unterminated", "1 +", "eprint(\"{}\", \"e\" * 5000); 1 / 0;"]
+        for k, prog in enumerate(diag_progs):
+            with open(path, "w") as f:
+                f.write(prog + "\n")
+            for rel in (False, True):
+                for mode in ("script", "cmd", "filter", "repl"):
+                    with open("/dev/full", "wb") as full:
+                        if mode == "script":
+                            rr = core.run_binary([path], release=rel, timeout=30, stderr_file=full)
+                        elif mode == "cmd":
+                            rr = core.run_binary(["-c", prog], release=rel, timeout=30, stderr_file=full)
+                        elif mode == "filter":
+                            with open(pcap_early, "rb") as fi:
+                                rr = core.run_binary(["-c", prog + " @ true { 1 / 0; } @ end { zz2(); }".replace("zz2();", "[1][7];")], stdin_file=fi, release=rel, timeout=30, stderr_file=full)
+                        else:
+                            rr = core.run_binary([], stdin_data=(prog + "\n1 + 1\n").encode(), release=rel, timeout=30, stderr_file=full,
+                                                 env=dict(os.environ, P2SH_VERIF_REPL_STDIN="1"))
+                    if rr["timeout"]:
+                        chk.inconc("timeout (full stderr)")
+                        continue
+                    chk.observed(("full-stderr", mode, k, rel))
+                    if core.crashed(rr):
+                        chk.violation("full-stderr|%s|rc=%s" % (mode, rr["rc"]), "with stderr on a full device the interpreter aborts (status %s) while reporting on the %s program %r" % (
+                            rr["rc"], mode, prog), {"src": prog, "mode": mode})
+        for k, prog in enumerate(["1 + 2", "\"text\"", "[1, 2, 3]", "let a = 5; a * 2", "puts(1); 7"]):
+            for rel in (False, True):
+                for mode in ("cmd", "repl"):
+                    with open("/dev/full", "wb") as full:
+                        if mode == "cmd":
+                            rr = core.run_binary(["-c", prog], release=rel, timeout=30, stdout_file=full)
+                        else:
+                            rr = core.run_binary([], stdin_data=(prog + "\n2 + 2\n").encode(), release=rel, timeout=30, stdout_file=full,
+                                                 env=dict(os.environ, P2SH_VERIF_REPL_STDIN="1"))
+                    if rr["timeout"]:
+                        chk.inconc("timeout (full stdout echo)")
+                        continue
+                    chk.observed(("full-stdout-echo", mode, k, rel))
+                    if core.crashed(rr):
+                        chk.violation("full-stdout-echo|%s|rc=%s" % (mode, rr["rc"]), "with stdout on a full device the interpreter aborts (status %s) when it echoes the value of %r (%s)" % (
+                            rr["rc"], prog, mode), {"src": prog, "mode": mode, "stderr": rr["err"].decode("utf-8", "replace")[-300:]})
         # confirm in-process suspects on the real binary, both profiles
         seen = {}
         tried = {}
